@@ -9,9 +9,11 @@ EXTENDS ArgVals, Json, CSV, IOUtils, TLC
 CONSTANTS MaxLen, Pool
 VARIABLES list
 V(t, v) == [t |-> t, v |-> v]
+Inf == 2000000
 Arr(et, vs) == [t |-> "a", et |-> et, v |-> vs]
 Scalars ==
-  IF Pool = "numbers" THEN { V("i", 0), V("i", 1), V("i", 2), V("i", 0 - 1), V("h", 0), V("h", 5), V("f", 0), V("f", 1), V("f", 2), V("d", 0), V("d", 5), V("c", 97), V("c", 98) }
+  IF Pool = "numbers" THEN { V("i", 0), V("i", 1), V("i", 2), V("i", 0 - 1), V("h", 0), V("h", 5), V("f", 0), V("f", 1), V("f", 2), V("d", 0), V("d", 5), V("c", 97), V("c", 98),
+                                    V("f", Inf), V("f", 0 - Inf), V("d", Inf) }       \* infinities (the driver maps +-Inf to the IEEE values): inf - inf is not a number
   ELSE IF Pool = "runs" THEN { V("i", 0), V("i", 1), V("i", 2), V("i", 3), V("i", 4), V("i", 5), V("i", 6), V("f", 0), V("f", 1), V("f", 2), V("f", 3), V("f", 4), V("f", 5), V("c", 97), V("c", 98), V("c", 99), V("c", 100), V("c", 101) }
   ELSE IF Pool = "texts" THEN { V("s", <<>>), V("s", <<97>>), V("s", <<97, 98>>), V("S", <<97>>), V("b", <<>>), V("b", <<1, 2>>), V("b", <<1, 2, 0>>),
                                 V("b", <<1, 3>>), V("m", <<1, 2, 3, 4>>), V("m", <<1, 2, 3, 5>>), V("t", 1), V("t", 0), V("t", 5), V("r", 7) }
